@@ -85,6 +85,8 @@ def run(rep, tier, seed):
     for i in range(n):
         if i % 7 == 6:
             a = gen.gen_tree(rng, depth=rng.randint(1, 2), maxar=3, atoms=gen.clash_atoms())
+        elif i % 7 == 5:
+            a = gen.gen_tree(rng, depth=2, maxar=3, atoms=gen.with_part_atoms())
         else:
             a = gen.gen_tree(rng, depth=rng.randint(0, 3), maxar=3, keys=KEYS, collide=(i % 5 == 0))
         r = rng.random()
@@ -102,7 +104,11 @@ def run(rep, tier, seed):
         elif r < 0.7 and a[0] != 0 and len(a[1]) > 2:
             j = rng.randrange(len(a[1]))
             b, kind = [a[0], a[1][:j] + a[1][j + 1:]], 'dropped'
-        elif r < 0.8:
+        elif r < 0.78:
+            # soundness: an expression and its own simplified form are equivalent by construction, so their truth
+            # tables must agree
+            b, kind = enc_expr(build_expr(a).simplify()), 'simplified'
+        elif r < 0.85:
             at = gen.gen_atom(rng, KEYS)
             if at[0] == 1:
                 a = [0, at]
